@@ -19,7 +19,7 @@ import ast
 from typing import Dict, List, Optional, Set, Tuple
 
 from ..cfg import (CFG, call_name, calls_in, walk_no_nested, parents_map, guards_of, attr_chain, enum_paths,
-                   flip_compare)
+                   flip_compare, branches, ctext, cguards_of, cconds)
 from ..core import AnalysisError, Ctx, Func, norm
 from ..effects import Effects
 from ..resolve import Resolver
@@ -167,20 +167,23 @@ def r6_3(ctx: Ctx, rule="R6.3"):
     order_if = wb_if = None
     for n in walk_no_nested(f.node):
         if isinstance(n, ast.If):
-            if any(isinstance(s, ast.Assign) and norm(s.targets[0]) == MOLV[0] for s in n.body):
+            if any(isinstance(s, ast.Assign) and norm(s.targets[0]) == MOLV[0] for s in n.body + n.orelse):
                 order_if = n
             if any(isinstance(s, ast.Assign) and isinstance(s.targets[0], ast.Attribute) and s.targets[0].attr == "atoms_positions"
-                   for s in n.body):
+                   for s in n.body + n.orelse):
                 wb_if = n
     if order_if is None or wb_if is None:
         ctx.ob(rule, f, "role predicates", True, "ordering / write-back branches not recognised; not decided", undecided=True)
         return
-    a, b = flip_compare(order_if.test), flip_compare(wb_if.test)
+    a, o_true, o_false = branches(order_if)
+    b, w_true, w_false = branches(wb_if)
     ctx.ob(rule, f, "ordering `%s` vs write-back `%s`" % (norm(order_if.test), norm(wb_if.test)), a == b,
            "the predicate that decides which molecule is mobile and the one that decides where the result is "
            "written are the same comparison" + ("" if a == b else " -- they differ (%s / %s): on some sizes the result is "
                                                 "written to the molecule that was held fixed" % (a, b)), node=wb_if)
-    want = "len(self.start) < len(self.end)"
+    want, wpol = ctext("len(self.start) < len(self.end)")
+    if not wpol:
+        o_true, o_false, w_true, w_false = o_false, o_true, w_false, w_true
     ctx.ob(rule, f, order_if, a == want,
            "start is the mobile molecule exactly when it has strictly fewer atoms than end (ties: start is fixed)",
            node=order_if, normalised=a)
@@ -196,10 +199,10 @@ def r6_3(ctx: Ctx, rule="R6.3"):
             if isinstance(s, ast.Assign) and isinstance(s.targets[0], ast.Attribute) and s.targets[0].attr == "atoms_positions":
                 return norm(s.targets[0].value)
         return None
-    t_list, e_list = mol_list(order_if.body), mol_list(order_if.orelse)
-    t_wb, e_wb = wb(wb_if.body), wb(wb_if.orelse)
+    t_list, e_list = mol_list(o_true), mol_list(o_false)
+    t_wb, e_wb = wb(w_true), wb(w_false)
     ok = t_list == ["self.end", "self.start"] and e_list == ["self.start", "self.end"] and t_wb == "self.start" and e_wb == "self.end"
-    ctx.ob(rule, f, "true branch: molecules=%s write-back=%s; else: molecules=%s write-back=%s" % (t_list, t_wb, e_list, e_wb), ok,
+    ctx.ob(rule, f, "start smaller: molecules=%s write-back=%s; otherwise: molecules=%s write-back=%s" % (t_list, t_wb, e_list, e_wb), ok,
            "in each branch the write-back target is the second (mobile) element of the ordered pair", node=order_if)
     # the optimiser receives (fixed, mobile) = molecules[0], molecules[1]
     opt = [c for c in calls_in(f.node) if call_name(c) == "minimize_molecules"]
@@ -332,9 +335,16 @@ def r6_7(ctx: Ctx, rule="R6.7"):
     n = 0
     for s_ in defs:
         vals = [e.value for e in s_.value.elts if isinstance(e, ast.Constant)]
-        gs = guards_of(s_, pm)
-        single = any(("len(self.start) == 1" in norm(t) or "len(self.end) == 1" in norm(t)) and pol for t, pol in gs)
-        under_none = any(norm(t) == "%s is None" % p_def and pol for t, pol in gs)
+        gs = cguards_of(s_, pm)
+        one = [ctext(x) for x in ("len(self.start) == 1 or len(self.end) == 1", "len(self.start) == 1", "len(self.end) == 1")]
+        single = any(g in one for g in gs)
+        multi = (one[0][0], not one[0][1]) in gs
+        under_none = ctext("%s is None" % p_def) in gs
+        if not single and not multi and len(gs) > 1:
+            ctx.ob(rule, f, s_, True, "default selection under a condition that is not a size test on the two molecules",
+                   undecided=True, node=s_)
+            n += 1
+            continue
         ok = under_none and len(vals) == len(s_.value.elts) and set(vals) <= {0, 1, 2} and bool(vals)
         if single:
             ok = ok and 2 not in vals
